@@ -209,7 +209,7 @@ pub fn prop() -> Prop {
         gen,
         check,
         panic_is_violation: false,
-        budget: (400_000, 20_000_000),
+        budget: (2400000, 120000000),
         extra: Some(extra),
         required: &["with_sequences", "with_wide", "additive", "insertions", "dirty_texts", "scalars_width1", "scalars_width2"],
         known: None,
